@@ -583,3 +583,252 @@ Section Layout2.
       unfold tloc. cbn [GdsData.t_xy]. rewrite import_gp. exact (Hnp j nm lx loc v k Hj Hl Hk).
   Qed.
 End Layout2.
+
+(** * instances *)
+Definition gstrans (i : instance) : option GdsData.strans :=
+  if i_reflect i || (match i_angle i with Some _ => true | None => false end)
+  then Some (GdsData.mkStrans (i_reflect i) false false None (i_angle i)) else None.
+Definition gsref (name : string) (i : instance) : GdsData.sref :=
+  GdsData.mkSref (bytes_of_string name) (gp (i_loc i)) (gstrans i) None None [].
+
+Lemma export_instance_inv cells i g :
+  export_instance cells i = Ok g ->
+  exists ci, nth_error cells (i_cell i) = Some ci /\ g = GdsData.ESref (gsref (c_name ci) i) /\ point_i32b (i_loc i) = true.
+Proof.
+  unfold export_instance. destruct (nth_error cells (i_cell i)) as [ci|]; [|discriminate].
+  intros H. obind_inv H. apply export_point_inv in E as [-> Hp]. injection H as <-.
+  exists ci. repeat split. exact Hp.
+Qed.
+
+Lemma import_gsref c cm name idx i :
+  RG.cm_get cm name = Some idx ->
+  RG.import_instance c cm (gsref name i) = RG.IOk (mkinst EmptyString idx (i_loc i) (i_reflect i) (i_angle i)).
+Proof.
+  intros H. unfold RG.import_instance, gsref. cbn [GdsData.sr_name GdsData.sr_xy GdsData.sr_strans].
+  rewrite bytes_str_roundtrip, H, import_gp. unfold gstrans.
+  destruct (i_reflect i) eqn:R; cbn [orb].
+  - cbn [GdsData.st_abs_mag GdsData.st_abs_angle GdsData.st_mag GdsData.st_reflected GdsData.st_angle orb].
+    rewrite andb_false_r. reflexivity.
+  - destruct (i_angle i) as [a|] eqn:A.
+    + cbn [GdsData.st_abs_mag GdsData.st_abs_angle GdsData.st_mag GdsData.st_reflected GdsData.st_angle orb].
+      rewrite andb_false_r. reflexivity.
+    + reflexivity.
+Qed.
+
+Definition imp_inst (idx : nat) (i : instance) : instance := mkinst EmptyString idx (i_loc i) (i_reflect i) (i_angle i).
+
+Lemma pass1_srefs c cm ly : forall (srs : list (string * instance)) (idxs : list nat) I E B T,
+  Forall2 (fun sr idx => RG.cm_get cm (fst sr) = Some idx) srs idxs ->
+  RG.pass1_all c cm (RG.mkp1 ly I E B T) (map (fun sr => GdsData.ESref (gsref (fst sr) (snd sr))) srs) =
+  RG.IOk (RG.mkp1 ly (I ++ map (fun p => imp_inst (snd p) (snd (fst p))) (combine srs idxs)) E B T).
+Proof.
+  induction srs as [|sr r IH]; intros idxs I E B T H; inversion H as [|? idx ? idxr Hsr Hr]; subst; cbn [map combine RG.pass1_all].
+  - rewrite app_nil_r. reflexivity.
+  - cbn [RG.pass1_step]. rewrite (import_gsref c cm _ _ _ Hsr). cbn [RG.ibind RG.p_layers RG.p_insts RG.p_elems RG.p_buckets RG.p_texts].
+    rewrite (IH idxr _ _ _ _ Hr). rewrite <- app_assoc. reflexivity.
+Qed.
+
+(** * inversion of the list combinators *)
+Lemma all_res_inv {A B} (f : A -> res B) : forall l r, all_res (map f l) = Ok r -> Forall2 (fun x y => f x = Ok y) l r.
+Proof.
+  induction l as [|x t IH]; intros r H; cbn [map all_res] in H.
+  - injection H as <-. constructor.
+  - obind_inv H. obind_inv H. injection H as <-. constructor; [exact E|apply IH; reflexivity].
+Qed.
+Lemma concat_res_inv {A B} (f : A -> res (list B)) : forall l r, concat_res (map f l) = Ok r ->
+  exists rs, Forall2 (fun x y => f x = Ok y) l rs /\ r = List.concat rs.
+Proof.
+  induction l as [|x t IH]; intros r H; cbn [map concat_res] in H.
+  - injection H as <-. exists []. split; [constructor|reflexivity].
+  - obind_inv H. obind_inv H. injection H as <-. destruct (IH _ eq_refl) as [rs [H1 H2]].
+    exists (a :: rs). split; [constructor; assumption|]. cbn. rewrite H2. reflexivity.
+Qed.
+
+(** * one element: what the exporter writes is the GDSII of an item *)
+Definition item_rel (ly : layers) (e : element) (it : xitem) : Prop :=
+  xi_shape it = e_shape e /\
+  resolve_lp ly (e_layer e) (e_purpose e) = Some (xi_n it, xi_x it) /\
+  get_or_insert ly (xi_n it) (xi_x it) = (ly, xi_key it, xi_purp it) /\
+  match e_net e with
+  | None => xi_label it = None
+  | Some nm => exists lx loc v, xi_label it = Some (nm, lx, loc, v) /\
+                                label_location xcfg_fixed (e_shape e) = Ok loc /\ point_i32b loc = true
+  end.
+
+Lemma export_element_item ly e gl :
+  layer_nums_distinctb ly = true ->
+  export_element xcfg_fixed ly e = Ok gl ->
+  exists it, gl = xi_gds it /\ item_rel ly e it /\ (match e_shape e with Polygon ps => ps <> [] | _ => True end).
+Proof.
+  intros Hd H. unfold export_element in H.
+  obind_inv H. destruct a as [n x]. obind_inv H.
+  apply layerspec_resolve in E.
+  destruct (goi_unchanged _ _ _ _ _ Hd E) as [p' Hg].
+  apply export_shape_gshape in E0 as [-> Hne].
+  destruct (e_net e) as [nm|] eqn:En.
+  - obind_inv H. destruct a as [n' lx]. obind_inv H. injection H as <-.
+    apply layerspec_resolve in E0.
+    assert (n' = n).
+    { unfold resolve_lp in E, E0. destruct (ly_get ly (e_layer e)) as [l|]; [|discriminate].
+      destruct (layer_pnum l (e_purpose e)); [|discriminate]. destruct (layer_pnum l Label); [|discriminate].
+      congruence. }
+    subst n'.
+    unfold export_shape_label in E1.
+    destruct (label_location xcfg_fixed (e_shape e)) as [loc| | |] eqn:Eloc; cbn [obind] in E1; try discriminate E1.
+    destruct (orientation_vert (e_shape e)) as [vert| | |] eqn:Ev; cbn [obind] in E1; try discriminate E1.
+    destruct (export_point loc) as [xy| | |] eqn:Exy; cbn [obind] in E1; try discriminate E1.
+    injection E1 as <-. apply export_point_inv in Exy as [-> Hloc32].
+    exists (mkxi n x (e_shape e) (e_layer e) p' (Some (nm, lx, loc, vert))).
+    split; [reflexivity|]. split; [|exact Hne].
+    unfold item_rel. cbn [xi_shape xi_n xi_x xi_key xi_purp xi_label]. rewrite En.
+    repeat split; try assumption. exists lx, loc, vert. split; [reflexivity|split; [exact Eloc|exact Hloc32]].
+  - injection H as <-.
+    exists (mkxi n x (e_shape e) (e_layer e) p' None).
+    split; [reflexivity|]. split; [|exact Hne].
+    unfold item_rel. cbn [xi_shape xi_n xi_x xi_key xi_purp xi_label]. rewrite En. repeat split; assumption.
+Qed.
+
+Lemma export_elements_items ly es gls :
+  layer_nums_distinctb ly = true ->
+  Forall2 (fun e gl => export_element xcfg_fixed ly e = Ok gl) es gls ->
+  exists its, Forall2 (item_rel ly) es its /\ List.concat gls = flat_map xi_gds its /\
+              Forall (fun e => match e_shape e with Polygon ps => ps <> [] | _ => True end) es.
+Proof.
+  intros Hd H. induction H as [|e gl es gls He Hr IH].
+  - exists []. repeat split; constructor.
+  - destruct IH as [its [H1 [H2 H3]]]. destruct (export_element_item _ _ _ Hd He) as [it [-> [Hi Hne]]].
+    exists (it :: its). split; [constructor; assumption|]. split; [cbn; rewrite H2; reflexivity|constructor; assumption].
+Qed.
+
+Lemma Forall2_in_r {A B} (R : A -> B -> Prop) l l' y : Forall2 R l l' -> In y l' -> exists x, In x l /\ R x y.
+Proof.
+  intros H. induction H as [|a b l l' Hab Hr IH]; intros Hy; [destruct Hy|].
+  destruct Hy as [<-|Hy]; [exists a; split; [left; reflexivity|exact Hab]|].
+  destruct (IH Hy) as [x [Hx Hxy]]. exists x. split; [right; exact Hx|exact Hxy].
+Qed.
+
+(** the shape an element comes back with *)
+Definition ishape (e : element) : shape := imp_shape (e_shape e).
+Definition elem_shape_ok (e : element) : Prop :=
+  match e_shape e with Path ps w => (2 <= List.length ps)%nat /\ 0 <= w | _ => True end.
+
+(** * A layout: export, then import (model level) *)
+Section LayoutRT.
+  Variable c : RG.cfg.
+  Variable ly : layers.
+  Variable cells : list cell.
+  Variable cm : RG.cell_map.
+  Variable l : layout.
+  Variable g : GdsData.gstruct.
+  Hypothesis Hly : layers_okb ly = true.
+  Hypothesis Hexp : export_layout xcfg_fixed ly cells l = Ok g.
+  Hypothesis Hshapes : Forall elem_shape_ok (lay_elems l).
+  Hypothesis Hcm : forall i ci, In i (lay_insts l) -> nth_error cells (i_cell i) = Some ci ->
+                     exists idx, RG.cm_get cm (c_name ci) = Some idx.
+  (* the importer's `contains` on the label points: no panic, the own shape contains its label, and
+     a shape of the same layer number that contains a label carries that net (up to case) *)
+  Hypothesis Hnp : forall ej nm loc ek, In ej (lay_elems l) -> e_net ej = Some nm ->
+      label_location xcfg_fixed (e_shape ej) = Ok loc -> point_i32b loc = true -> In ek (lay_elems l) ->
+      exists b, RG.shape_contains c (ishape ek) loc = RG.IOk b.
+  Hypothesis Hown : forall ej nm loc, In ej (lay_elems l) -> e_net ej = Some nm ->
+      label_location xcfg_fixed (e_shape ej) = Ok loc -> point_i32b loc = true ->
+      RG.shape_contains c (ishape ej) loc = RG.IOk true.
+  Hypothesis Hun : forall ej nm loc ek, In ej (lay_elems l) -> e_net ej = Some nm ->
+      label_location xcfg_fixed (e_shape ej) = Ok loc -> point_i32b loc = true -> In ek (lay_elems l) ->
+      key_num ly (e_layer ek) = key_num ly (e_layer ej) ->
+      RG.shape_contains c (ishape ek) loc = RG.IOk true ->
+      exists nm', e_net ek = Some nm' /\ lower nm' = lower nm.
+
+  Definition inst_rel (i i' : instance) : Prop :=
+    exists ci idx, nth_error cells (i_cell i) = Some ci /\ RG.cm_get cm (c_name ci) = Some idx /\
+                   i' = mkinst EmptyString idx (i_loc i) (i_reflect i) (i_angle i).
+  Definition elem_rel (e e' : element) : Prop :=
+    e_net e' = option_map lower (e_net e) /\ e_shape e' = ishape e /\
+    resolve_lp ly (e_layer e') (e_purpose e') = resolve_lp ly (e_layer e) (e_purpose e) /\
+    resolve_lp ly (e_layer e) (e_purpose e) <> None.
+
+  Lemma layers_ok_parts : layer_nums_distinctb ly = true /\ (forall k l0, nth_error ly k = Some l0 -> layer_consistent l0).
+  Proof.
+    unfold layers_okb in Hly. apply andb_prop in Hly as [H1 H2]. split; [exact H2|].
+    intros k l0 Hk. rewrite forallb_forall in H1. specialize (H1 l0 (nth_error_In _ _ Hk)).
+    apply andb_prop in H1 as [_ H1]. exact H1.
+  Qed.
+
+  Theorem layout_roundtrip_model :
+    exists l', RG.import_layout c cm ly g = RG.IOk (ly, l') /\
+               lay_name l' = lay_name l /\
+               Forall2 inst_rel (lay_insts l) (lay_insts l') /\
+               Forall2 elem_rel (lay_elems l) (lay_elems l') /\
+               lay_annots l' = [].
+  Proof.
+    destruct layers_ok_parts as [Hd Hcons].
+    unfold export_layout in Hexp. pose proof Hexp as H. obind_inv H. obind_inv H. injection H as <-.
+    rename a into gis, a0 into ges.
+    apply all_res_inv in E. apply concat_res_inv in E0 as [gls [Hgl ->]].
+    destruct (export_elements_items _ _ _ Hd Hgl) as [its [Hits [Hcat Hne]]]. rewrite Hcat.
+    (* the instances *)
+    assert (Hsr : exists srs idxs, gis = map (fun sr => GdsData.ESref (gsref (fst sr) (snd sr))) srs /\
+                   Forall2 (fun sr idx => RG.cm_get cm (fst sr) = Some idx) srs idxs /\
+                   Forall2 inst_rel (lay_insts l) (map (fun p => imp_inst (snd p) (snd (fst p))) (combine srs idxs))).
+    { clear Hexp Hgl Hcat Hits. revert Hcm. generalize dependent (lay_insts l). intros insts0 E.
+      induction E as [|i gi insts gis Hi Hr IH]; intros Hcm0.
+      - exists [], []. repeat split; constructor.
+      - destruct IH as (srs & idxs & -> & H1 & H2). { intros i0 ci Hin. apply Hcm0. right. exact Hin. }
+        apply export_instance_inv in Hi as (ci & Hci & -> & _).
+        destruct (Hcm0 i ci (or_introl eq_refl) Hci) as [idx Hidx].
+        exists ((c_name ci, i) :: srs), (idx :: idxs). split; [reflexivity|]. split; [constructor; assumption|].
+        cbn [combine map]. constructor; [|exact H2]. exists ci, idx. repeat split; assumption. }
+    destruct Hsr as (srs & idxs & -> & Hidx & Hinsts).
+    (* items are fine for pass 1 *)
+    assert (Hok : Forall (xi_ok ly) its).
+    { apply Forall_forall. intros it Hit. destruct (Forall2_in_r _ _ _ _ Hits Hit) as [e [He (Hs & Hr & Hg & Hl)]].
+      split; [exact Hg|]. rewrite Hs. unfold shape_imp_ok.
+      rewrite Forall_forall in Hshapes, Hne. specialize (Hshapes e He). specialize (Hne e He). unfold elem_shape_ok in Hshapes.
+      destruct (e_shape e); [exact I|exact Hne|exact Hshapes]. }
+    unfold RG.import_layout. cbn [GdsData.s_elems GdsData.s_name].
+    rewrite pass1_all_app, (pass1_srefs c cm ly srs idxs [] [] [] [] Hidx). cbn [RG.ibind app].
+    rewrite (pass1_items c cm ly its _ [] [] [] Hok). cbn [RG.ibind app RG.p_buckets RG.p_elems RG.p_texts RG.p_layers RG.p_insts List.length].
+    assert (HB : Binv (enum_of ly) (buckets_after [] 0 its) (map xi_elem its)).
+    { apply (Binv_items ly its [] [] Hok). apply Binv_nil. }
+    (* facts about items from facts about elements *)
+    assert (Hsrc : forall j nm lx loc v, In j its -> xi_label j = Some (nm, lx, loc, v) ->
+              exists ej, In ej (lay_elems l) /\ item_rel ly ej j /\ e_net ej = Some nm /\ label_location xcfg_fixed (e_shape ej) = Ok loc /\
+                         point_i32b loc = true).
+    { intros j nm lx loc v Hj Hl. destruct (Forall2_in_r _ _ _ _ Hits Hj) as [ej [Hej Hrel]].
+      exists ej. split; [exact Hej|]. split; [exact Hrel|]. destruct Hrel as (_ & _ & _ & Hlab).
+      destruct (e_net ej) as [nm0|]; [|rewrite Hlab in Hl; discriminate].
+      destruct Hlab as (lx0 & loc0 & v0 & Hl0 & Hloc & H32). rewrite Hl0 in Hl. injection Hl as -> -> -> ->. split; [reflexivity|split; [exact Hloc|exact H32]]. }
+    assert (Hshape_k : forall k ek, item_rel ly ek k -> e_shape (xi_elem k) = ishape ek).
+    { intros k ek (Hs & _). unfold xi_elem, ishape. cbn [e_shape]. rewrite Hs. reflexivity. }
+    rewrite (pass2_items c ly its Hok); [| | | |exact HB].
+    - cbn [RG.ibind fst snd]. eexists. split; [reflexivity|].
+      cbn [lay_name lay_insts lay_elems lay_annots]. split; [apply bytes_str_roundtrip|]. split; [exact Hinsts|]. split; [|reflexivity].
+      clear -Hits Hcons. induction Hits as [|e it es its Hrel Hr IH]; cbn [map]; constructor; [|exact IH].
+      destruct Hrel as (Hs & Hres & Hg & Hlab). unfold elem_rel, xi_final. cbn [e_net e_shape e_layer e_purpose].
+      split; [|split; [|split]].
+      + unfold xi_name. destruct (e_net e) as [nm|]; [destruct Hlab as (lx & loc & v & -> & _ & _); reflexivity|rewrite Hlab; reflexivity].
+      + unfold ishape. rewrite Hs. reflexivity.
+      + rewrite Hres. pose proof (get_or_insert_resolves ly (xi_n it) (xi_x it) Hcons) as Hgr. rewrite Hg in Hgr. exact Hgr.
+      + rewrite Hres. discriminate.
+    - (* no panic *)
+      intros j nm lx loc v k Hj Hl Hk. destruct (Hsrc j nm lx loc v Hj Hl) as (ej & Hej & _ & Hn & Hloc & H32).
+      destruct (Forall2_in_r _ _ _ _ Hits Hk) as [ek [Hek Hrelk]].
+      unfold cont_ok. rewrite (Hshape_k k ek Hrelk). exact (Hnp ej nm loc ek Hej Hn Hloc H32 Hek).
+    - (* own label *)
+      intros j nm lx loc v Hj Hl. destruct (Hsrc j nm lx loc v Hj Hl) as (ej & Hej & Hrelj & Hn & Hloc & H32).
+      unfold cont. rewrite (Hshape_k j ej Hrelj), (Hown ej nm loc Hej Hn Hloc H32). reflexivity.
+    - (* unambiguous *)
+      intros j nm lx loc v k Hj Hl Hk Hnum Hc. destruct (Hsrc j nm lx loc v Hj Hl) as (ej & Hej & Hrelj & Hn & Hloc & H32).
+      destruct (Forall2_in_r _ _ _ _ Hits Hk) as [ek [Hek Hrelk]].
+      unfold cont in Hc. rewrite (Hshape_k k ek Hrelk) in Hc.
+      destruct (RG.shape_contains c (ishape ek) loc) as [b| | |] eqn:Hsc; try discriminate. subst b.
+      assert (Hkn : key_num ly (e_layer ek) = key_num ly (e_layer ej)).
+      { destruct Hrelk as (_ & Hrk & _). destruct Hrelj as (_ & Hrj & _). unfold resolve_lp in Hrk, Hrj. unfold key_num.
+        destruct (ly_get ly (e_layer ek)) as [lk|]; [|discriminate]. destruct (ly_get ly (e_layer ej)) as [lj|]; [|discriminate].
+        destruct (layer_pnum lk (e_purpose ek)); [|discriminate]. destruct (layer_pnum lj (e_purpose ej)); [|discriminate].
+        cbn. congruence. }
+      destruct (Hun ej nm loc ek Hej Hn Hloc H32 Hek Hkn Hsc) as [nm' [H1 H2]].
+      exists nm'. split; [|exact H2]. destruct Hrelk as (_ & _ & _ & Hlab). unfold xi_name. rewrite H1 in Hlab.
+      destruct Hlab as (lx' & loc' & v' & -> & _ & _). reflexivity.
+  Qed.
+End LayoutRT.
